@@ -226,6 +226,9 @@ def _exec_script(conn, script):
             buf = ""
 
 
+DEFAULT_WAIT_RETRIES = [2]
+
+
 class World:
     """One worker-process-worth of real stabilize objects over one database.
 
@@ -250,7 +253,7 @@ class World:
         self.store = self.queue = self.processor = self.registry = None
         self.pristine = None
         self.dedup_capacity = 64
-        self.wait_retries = 2  # max_stage_wait_retries (240 x 15 s = 1 h in production)
+        self.wait_retries = DEFAULT_WAIT_RETRIES[0]  # max_stage_wait_retries (240 x 15 s = 1 h in production)
         self._engine_active = False
         self.dangling_txn = False
 
